@@ -35,7 +35,10 @@ def gen_history(rng, max_depth, size):
 
     def create():
         ncreated[0] += 1
-        return ["create", rng.choice(TRI), rng.choice(TRI), rng.choice(RNS)]
+        # 5th field: build the context from ONE shared MXCSRRegister instance (`r(FZ=..)`, the instance the harness also reads the
+        # register with) instead of `fpu.context(..)` (a fresh instance each): per-instance state shared between contexts or
+        # clobbered by a read inside the body shows only then (seeded change C18_4)
+        return ["create", rng.choice(TRI), rng.choice(TRI), rng.choice(RNS), rng.random() < 0.4]
 
     def block(depth):
         out = []
